@@ -249,11 +249,8 @@ func ruleFIFO(fields ...string) func(c *Ctx) {
 			for _, st := range p.stores[f] {
 				c.inst(1)
 				top := fnName(TopLevel(st.Parent()))
-				for _, cand := range p.ownerChain(st.Parent()) {
-					if allowed[cand] != nil {
-						top = cand
-						break
-					}
+				if o, ok := p.ownedBy(st.Parent(), func(nm string) bool { return allowed[nm] != nil }); ok {
+					top = o
 				}
 				form := queueForm(st, f)
 				pos := p.InstrPos(st)
